@@ -23,7 +23,12 @@ to the REAL classes StandardNis, SlidingNis, FadingMemoryNis in both directions.
 4. seam probe (driver side): inputs whose reported float metric equals the float bound bit
    for bit must be detections ("reaches" is >=, as Verdict in Detectors.tla states), inputs
    one representable value below must not.
-5. (thorough) spec-level theorems on the merged state space for deeper histories.
+5. scale invariance (clause nis-not-scale-invariant): half of all inputs of dimension >= 2 in 1-3
+   are strongly correlated covariances in small / large measurement units (same posed NIS); the
+   2x2 lattice of Detectors.tla (NisScaleInvariant, deviation OffDiagDropped refuted by TLC) is
+   replayed into the real chiSquareQuadraticForm in five units; one history per detector is fed
+   in five units and must report the same metric in each.
+6. (thorough) spec-level theorems on the merged state space for deeper histories.
 
 Decided exactly by TLC: the statistic, the window contents, the fading recursion, the dof
 bookkeeping (all rational) and the comparison direction against a tabulated bound.  The
@@ -50,7 +55,7 @@ from ..core import Ctx
 LEVEL = "model_checking"
 
 ALPHAS_SMALL = [0.01, 0.05, 0.5]
-ALPHAS_WIDE = [0.001, 0.01, 0.05, 0.1, 0.5, 0.9]
+ALPHAS_WIDE = [0.001, 0.01, 0.05, 0.1, 0.5, 0.9, 1e-18]
 DELTAS_QUICK = [(1, 2), (4, 5)]
 DELTAS_WIDE = [(1, 2), (4, 5), (1, 10), (9, 10), (1, 3), (2, 3)]     # = DeltasWide in Detectors.tla
 BOUND_DEN = 10**8          # = BoundDen (Base^2) in Detectors.tla
@@ -121,26 +126,59 @@ def make_detector(kind, w, p, q, alpha):
     return FadingMemoryNis(alpha, delta=p / q)
 
 
+SCALES = (1.0, 1e-3, 3e-5, 1e-6, 1e4)      # physical unit changes nu -> c nu, S -> c^2 S (NIS unchanged)
+RHOS = (0.5, 0.7, 0.9, 0.95, 0.99)
+
+
+def correlated_cov(rng, dim: int, rho=None):
+    """Strongly correlated covariance D C D, C = (1 - rho) I + rho v v' with v in {-1, +1}^dim
+    (so the correlations have both signs), or equicorrelation with a negative rho."""
+    rho = RHOS[int(rng.integers(len(RHOS)))] if rho is None else rho
+    if rng.random() < 0.25:
+        corr = np.full((dim, dim), -0.9 * rho / (dim - 1))
+        np.fill_diagonal(corr, 1.0)
+    else:
+        v = rng.choice((-1.0, 1.0), size=dim)
+        corr = (1.0 - rho) * np.eye(dim) + rho * np.outer(v, v)
+    sig = 1.0 + 2.0 * rng.random(dim)
+    return corr * np.outer(sig, sig)
+
+
+def _scale_to_nis(rng, s_mat, nis):
+    """A residual off the principal axes of s_mat with r' s_mat^-1 r == nis (Cholesky solve)."""
+    from scipy.linalg import cho_factor, cho_solve
+    u = rng.normal(size=s_mat.shape[0])
+    cf = cho_factor(s_mat)
+    q0 = float(u @ cho_solve(cf, u))
+    r = u * math.sqrt(nis / q0)
+    got = float(r @ cho_solve(cf, r))          # NIS recomputed by the harness
+    if abs(got - nis) > 2e-13 * max(1.0, nis):
+        raise tlc.MachineryError(f"harness could not build an input with NIS {nis}: {got}")
+    return r
+
+
 def make_input(rng, nis: float, dim: int, dense: bool):
-    """Residual (dim,) and positive-definite covariance (dim, dim) with r' S^-1 r == nis."""
+    """Residual (dim,) and positive-definite covariance (dim, dim) with r' S^-1 r == nis.
+
+    Half of the inputs of dimension >= 2 (in either mode) are strongly correlated covariances
+    (|rho| 0.5 .. 0.99, both signs) expressed in small or large measurement units
+    (entries down to 1e-12 and up to 1e9): the statistic is invariant under nu -> c nu,
+    S -> c^2 S, so the posed NIS is unchanged."""
+    if dim >= 2 and rng.random() < 0.5:
+        s_mat = correlated_cov(rng, dim)
+        r = _scale_to_nis(rng, s_mat, nis)
+        c = SCALES[int(rng.integers(len(SCALES)))]
+        return r * c, s_mat * (c * c)
     if not dense:
         s = (0.25, 1.0, 4.0, 16.0)[int(rng.integers(4))]
         wts = rng.random(dim) + 0.05
         wts /= wts.sum()
         r = np.sqrt(nis * s * wts) * rng.choice((-1.0, 1.0), size=dim)
         return r, np.eye(dim) * s
-    from scipy.linalg import cho_factor, cho_solve
     a = rng.normal(size=(dim, dim))
     scale = (0.01, 1.0, 25.0)[int(rng.integers(3))]
     s_mat = (a @ a.T + 0.5 * dim * np.eye(dim)) * scale
-    u = rng.normal(size=dim)
-    cf = cho_factor(s_mat)
-    q0 = float(u @ cho_solve(cf, u))
-    r = u * math.sqrt(nis / q0)
-    got = float(r @ cho_solve(cf, r))          # NIS recomputed by the harness (Cholesky solve)
-    if abs(got - nis) > 2e-13 * max(1.0, nis):
-        raise tlc.MachineryError(f"harness could not build an input with NIS {nis}: {got}")
-    return r, s_mat
+    return _scale_to_nis(rng, s_mat, nis), s_mat
 
 
 def close(got, exp):
@@ -321,6 +359,8 @@ def plan_exhaustive(ctx: Ctx):
                 raise tlc.MachineryError(f"Detectors.tla theorem {inv} fails at spec level:\n" + "\n".join(states[-1:]))
             if res.coverage:
                 check_coverage(ctx, res)
+            if r == 0:
+                replay_qf2(ctx, res)
             # every Construct* / *Step action of the spec must have produced histories
             want = set()
             if kinds is None or "standard" in kinds:
@@ -407,7 +447,8 @@ def gen_traces(ctx: Ctx, rng: random.Random, nrng, count, nis_den, alphas, max_l
         a = rng.randint(1, len(alphas))
         det = make_detector(kind, w, p, q, alphas[a - 1])
         length = rng.randint(1, max_len) if t % 7 else max_len
-        level = rng.choice((0.3, 1.0, 1.0, 1.6, 2.5))
+        # NIS per unit dimension drawn around where the chi-square bound of this threshold sits
+        level = rng.choice((0.3, 1.0, 1.0, 1.6, 2.5)) * max(1.0, bound(alphas[a - 1], 6, 1) / 12.6)
         fixed_dim = rng.randint(1, 8) if rng.random() < 0.2 else None
         steps, mets = [], []
         twin = None
@@ -554,6 +595,74 @@ def boundary_probe(ctx: Ctx):
         raise tlc.MachineryError(f"boundary probe found only {st['equal']} inputs whose metric equals the bound exactly")
 
 
+def scale_probe(ctx: Ctx):
+    """Clause nis-not-scale-invariant, on the real detectors: one short history (dimension changing
+    2..6, strongly correlated covariances, innovations off the principal axes) is fed to fresh
+    detectors in several measurement units; every reported metric must be the same in all units
+    (and equal to the statistic of the posed NIS values, which are exact at unit scale)."""
+    rng = np.random.default_rng([ctx.seed, 4242])
+    n = 0
+    for kind, w, p, q in (("standard", 0, 0, 1), ("sliding", 3, 0, 1), ("fading", 0, 3, 5)):
+        for rho in RHOS:
+            dims = [int(x) for x in rng.permutation([2, 3, 4, 5, 6])]
+            hist = []
+            for d in dims:
+                s_mat = correlated_cov(rng, d, rho)
+                nis = float(rng.integers(1, 6 * d))
+                hist.append((nis, _scale_to_nis(rng, s_mat, nis), s_mat))
+            ref = None
+            for c in SCALES:
+                det = make_detector(kind, w, p, q, 0.05)
+                mets, dets = [], []
+                for nis, r, s_mat in hist:
+                    dets.append(bool(det(r * c, s_mat * (c * c))))
+                    mets.append(float(det.metric))
+                n += 1
+                ctx.case(("scale", kind, rho, tuple(dims), c))
+                if ref is None:
+                    ref = (mets, dets)
+                    continue
+                bad = [j for j in range(len(hist)) if not close(mets[j], ref[0][j]) or dets[j] != ref[1][j]]
+                if bad:
+                    j = bad[0]
+                    ctx.violation(f"{kind}-nis-not-scale-invariant",
+                                  f"{CLS[kind]}: the same history in units scaled by {c:g} reports metric {mets[j]!r} at call {j + 1} "
+                                  f"instead of {ref[0][j]!r} (rho {rho}, dim {dims[j]})",
+                                  {"scale": {"kind": kind, "w": w, "delta": [p, q], "rho": rho, "dims": dims, "c": c, "call": j + 1,
+                                             "residual": (hist[j][1] * c).tolist(), "covariance": (hist[j][2] * c * c).tolist(),
+                                             "posed_nis": hist[j][0]}})
+    ctx.extra["scale_probe_runs"] = n
+
+
+def replay_qf2(ctx: Ctx, res):
+    """spec -> impl for the quadratic form itself: every point of the 2x2 lattice of Detectors.tla (exact
+    rational value from TLC) through the real chiSquareQuadraticForm in five measurement units."""
+    from resonaate.physics.statistics import chiSquareQuadraticForm
+    pts = res.tagged("QF2")
+    if len(pts) < 1000:
+        raise tlc.MachineryError(f"Detectors.tla emitted only {len(pts)} QF2 lattice points")
+    n = 0
+    for nu, cov, (qn, qd) in pts:
+        exp = qn / qd
+        ctx.case(("qf2", tuple(nu), tuple(cov)), nontrivial=cov[1] != 0 and nu[0] * nu[1] != 0)
+        ok_unit = None
+        for c in SCALES:
+            r = np.array(nu, dtype=float) * c
+            s_mat = np.array([[cov[0], cov[1]], [cov[1], cov[2]]], dtype=float) * (c * c)
+            got = chiSquareQuadraticForm(r, s_mat)
+            n += 1
+            good = close(got, exp)
+            if ok_unit is None:
+                ok_unit = good
+            if not good:
+                sig = "quadratic-form-not-scale-invariant" if ok_unit else "quadratic-form-value"
+                ctx.violation(sig, f"chiSquareQuadraticForm = {got!r} for nu = {nu}, S = {cov} in units scaled by {c:g}; exact value {qn}/{qd}",
+                              {"qf2": {"nu": nu, "S": cov, "c": c, "expected": [qn, qd], "got": repr(got)}})
+                break
+    ctx.traces_validated += len(pts)
+    ctx.extra["qf2_lattice"] = {"points": len(pts), "real_evaluations": n}
+
+
 def plan_deep(ctx: Ctx):
     """Spec-level theorems over deeper histories on the merged state space (thorough only)."""
     cfg_text = (tlc.SPEC_DIR / "Detectors_deep.cfg").read_text()
@@ -598,7 +707,8 @@ def run(ctx: Ctx):
         f"inside TLC the bound is round(bound*{BOUND_DEN})/{BOUND_DEN}; statistics within 10/{BOUND_DEN} of it are undecided (both answers accepted) "
         f"and the recorded metric is matched to 1/{MQ} (the driver then matches it to {REL} against the rational TLC prints)",
         "fading-memory dof uses the running average dimension over the whole run, as the code documents (DESIGN.md 7-5)",
-        "inputs are residual vectors / covariances whose quadratic form equals the posed NIS to 2e-13 relative (identity-scaled or dense positive definite, cond < 100)",
+        "inputs are residual vectors / covariances whose quadratic form equals the posed NIS to 2e-13 relative (identity-scaled, dense positive definite, "
+        "or strongly correlated |rho| 0.5..0.99 in units scaled by 1, 1e-3, 3e-5, 1e-6, 1e4; cond < 1e4)",
     ]
     # TLC runs are sub-processes started from a small thread pool; everything that touches ctx
     # or the real detectors happens in this thread, in a fixed order.
@@ -608,6 +718,7 @@ def run(ctx: Ctx):
         plan = plan_exhaustive(ctx) + plan_simulation(ctx)
         futs = [(label, ex.submit(go), finish) for label, go, finish in plan]
         boundary_probe(ctx)
+        scale_probe(ctx)
         more = plan_impl_to_spec(ctx, rng)
         phases["record_real_runs"] = round(time.time() - t0, 1)
         if not ctx.quick:
@@ -633,9 +744,23 @@ def replay(ctx: Ctx, rp: dict):
     from .. import sched
     sched.install()
     r = rp["replay"]
-    if "boundary" in r:
+    if "boundary" in r or "scale" in r:
         boundary_probe(ctx)
+        scale_probe(ctx)
         ctx.traces_validated += 1
+        return
+    if "qf2" in r:
+        from resonaate.physics.statistics import chiSquareQuadraticForm
+        x = r["qf2"]
+        ctx.case(("replay", json.dumps(x)))
+        ctx.case(("replay2", "qf2"))
+        ctx.traces_validated += 1
+        for c in SCALES:
+            got = chiSquareQuadraticForm(np.array(x["nu"], dtype=float) * c,
+                                         np.array([[x["S"][0], x["S"][1]], [x["S"][1], x["S"][2]]], dtype=float) * (c * c))
+            if not close(got, x["expected"][0] / x["expected"][1]):
+                ctx.violation(rp.get("signature", "quadratic-form-value"), f"stored lattice point still wrong in units scaled by {c:g}", r)
+                break
         return
     if "trace" in r:
         tr = r["trace"]
